@@ -204,7 +204,7 @@ def main():
                 else:
                     violations.append((desc, path, x['detail']))
                 continue
-            if v in ('sat', 'sat-abstract'):
+            if v in ('sat', 'sat-abstract', 'sat-candidate'):
                 os.makedirs(replay_dir, exist_ok=True)
                 rec = x['record']
                 rec['pkg'] = job['pkg']
@@ -224,6 +224,8 @@ def main():
                         known_hits.append((k, desc, path))
                     else:
                         violations.append((desc, path, out[-1500:]))
+                elif v == 'sat-candidate':
+                    os.remove(path)
                 else:
                     os.remove(path)
                     inconclusive.append((jid, x['label'], 'solver model did not reproduce natively (%s): encoding mismatch or tolerance' % v))
